@@ -128,7 +128,7 @@ def patches(plan):
         if kind == "intr":
             raise KeyboardInterrupt()
 
-    def f_copy2(src, dst):
+    def f_copy2(src, dst, **kwargs):
         kind = plan.point("copy2:%s->%s" % (os.path.basename(str(src)),
                                             os.path.basename(str(dst))))
         if kind == "fail":
@@ -139,7 +139,7 @@ def patches(plan):
             with builtins.open(dst, "wb") as fh:
                 fh.write(data[:len(data) // 2])
             raise Injected("injected: torn copy")
-        shutil.copy2(src, dst)
+        shutil.copy2(src, dst, **kwargs)
         if kind == "intr":
             raise KeyboardInterrupt()
         return dst
